@@ -32,6 +32,8 @@ def convs(rng, tier):
                 msgs = [("open", S.frame(S.OPEN, S.open_body())), ("open.bad", S.frame(S.OPEN, S.open_body(ver=5))),
                         ("keepalive", S.frame(S.KEEPALIVE)), ("update", S.frame(S.UPDATE, b"\x00\x00\x00\x00")),
                         ("update.big", S.frame(S.UPDATE, b"\x00\x00\x00\x00" + gen.rbytes(rng, rng.randint(1, 4073)))),
+                        ("update.max", S.frame(S.UPDATE, b"\x00\x00\x00\x00" + gen.rbytes(rng, 4073))),      # 4096 octets in total
+                        ("notif.max", S.frame(S.NOTIF, S.notif_body(rng.randint(1, 5), rng.randint(0, 9), gen.rbytes(rng, 4075)))),
                         ("notif", S.frame(S.NOTIF, S.notif_body(rng.randint(1, 7), rng.randint(0, 11), gen.rbytes(rng, rng.choice([0, 1, 2, 9]))))),
                         ("notif.cease", S.frame(S.NOTIF, S.notif_body(6, rng.randint(0, 9)))),
                         ("notif.short", S.frame(S.NOTIF, bytes([rng.randint(0, 255)]))),
@@ -42,7 +44,7 @@ def convs(rng, tier):
                     c.judge = judge
                     bring_to(c, state)
                     c.send(m)
-                    if state == "established" and name in ("keepalive", "update", "update.big"):
+                    if state == "established" and name in ("keepalive", "update", "update.big", "update.max"):
                         c.eof = 1
                     out.append(c)
                     sid += 1
